@@ -235,7 +235,9 @@ class ExceptionTrace(object):
 
     def render(self, io, simple=False):  # type: (IO, bool) -> None
         if simple:
-            io.write_line("<error>{}</error>".format(str(self._exception)))
+            io.write_line(
+                "<error>{}</error>".format(self._escape(str(self._exception)))
+            )
             return
 
         if not PY36:
@@ -273,7 +275,7 @@ class ExceptionTrace(object):
             io, "<error>{}</error>".format(inspector.exception_name), True
         )
         io.write_line("")
-        exception_message = io.remove_format(inspector.exception_message).replace(
+        exception_message = self._escape(inspector.exception_message).replace(
             "\n", "\n  "
         )
         self._render_line(io, "<b>{}</b>".format(exception_message))
@@ -415,6 +417,10 @@ class ExceptionTrace(object):
                         )
 
                     i -= 1
+
+    def _escape(self, text):  # type: (str) -> str
+        # The text of an exception is not markup: print style tags as they are
+        return text.replace("<", "\\<")
 
     def _render_line(
         self, io, line, new_line=False, indent=0
